@@ -16,7 +16,7 @@ use schema_gen::TYPE_NAMES;
 pub const NAME: &str = "schema";
 
 // ---- strict well-formedness of one CBOR item (RFC 8949 syntax; no typed knowledge) ----
-fn head(b: &[u8], p: usize) -> Option<(u8, u8, u64, usize)> {
+pub fn head(b: &[u8], p: usize) -> Option<(u8, u8, u64, usize)> {
     let ib = *b.get(p)?;
     let (m, ai) = (ib >> 5, ib & 31);
     let n = match ai { 0..=23 => 0, 24 => 1, 25 => 2, 26 => 4, 27 => 8, 31 => 0, _ => return None };
